@@ -39,6 +39,35 @@ fn kv<'a>(a: &'a [&'a str], key: &str) -> Option<&'a str> {
     None
 }
 
+#[repr(C)]
+struct RLimit {
+    cur: u64,
+    max: u64,
+}
+extern "C" {
+    fn getrlimit(resource: i32, rlim: *mut RLimit) -> i32;
+    fn setrlimit(resource: i32, rlim: *const RLimit) -> i32;
+    fn signal(signum: i32, handler: usize) -> usize;
+}
+
+/// runs f with the soft RLIMIT_FSIZE lowered to `limit` bytes (Linux x86_64: resource 1, SIGXFSZ 25 ignored so that the
+/// write fails with EFBIG instead of killing the process): a write-time fault that lets a prefix through
+fn with_fsize_limit<T>(limit: Option<u64>, f: impl FnOnce() -> T) -> T {
+    match limit {
+        None => f(),
+        Some(l) => unsafe {
+            let mut old = RLimit { cur: 0, max: 0 };
+            getrlimit(1, &mut old);
+            signal(25, 1);
+            let new = RLimit { cur: l, max: old.max };
+            setrlimit(1, &new);
+            let r = f();
+            setrlimit(1, &old);
+            r
+        },
+    }
+}
+
 fn build_svg(a: &[&str]) -> SvgBuilder {
     // order=<setter names, comma separated>: the order in which the setters are called (layer calls `shape`/`shape_color`
     // consume the items of layers= one by one); without it the canonical order below
@@ -106,7 +135,11 @@ pub fn handle(name: &str, a: &[&str]) -> String {
             let path = String::from_utf8(unhex(kv(a, "path").unwrap())).unwrap();
             let b = build_svg(a);
             let expect = b.to_str(&qr);
-            match b.to_file(&qr, &path) {
+            if kv(a, "garbage").is_some() {
+                let _ = std::fs::write(&path, vec![0x5Au8; expect.len()]);
+            }
+            let limit: Option<u64> = kv(a, "fsize").map(|x| x.parse().unwrap());
+            match with_fsize_limit(limit, || b.to_file(&qr, &path)) {
                 Ok(()) => {
                     if path.starts_with("/dev/") {
                         // a device swallows the bytes: Ok here means a failed write was reported as success
@@ -129,8 +162,20 @@ pub fn handle(name: &str, a: &[&str]) -> String {
             }
             let path = String::from_utf8(unhex(kv(a, "path").unwrap())).unwrap();
             let b = crate::convert::image::ImageBuilder::default();
-            match b.to_file(&qr, &path) {
-                Ok(()) => format!("OK exists={}", std::path::Path::new(&path).exists()),
+            let limit: Option<u64> = kv(a, "fsize").map(|x| x.parse().unwrap());
+            let expect = b.to_bytes(&qr).unwrap_or_default();
+            if kv(a, "garbage").is_some() {
+                // a file of exactly the size of the encoding, with other content, is already there
+                let _ = std::fs::write(&path, vec![0x5Au8; expect.len()]);
+            }
+            match with_fsize_limit(limit, || b.to_file(&qr, &path)) {
+                Ok(()) => {
+                    if path.starts_with("/dev/") {
+                        return "OK same=false (device)".to_string();
+                    }
+                    let got = std::fs::read(&path).unwrap_or_default();
+                    format!("OK same={} len={}", got == expect, expect.len())
+                }
                 Err(e) => format!("ERR {:?}", e).replace('\n', " "),
             }
         }
